@@ -533,6 +533,10 @@ func init() {
 		"internal/stringslite.Clone":   func(in *Interp, c *frame, fn *ssa.Function, a []Value) Value { return a[0] },
 		"unique.Make[string]":          func(in *Interp, c *frame, fn *ssa.Function, a []Value) Value { panic(unsupported("unique.Make")) },
 
+		// ---- sort.Slice (reflection based in the real library): insertion sort driven by the caller's less
+		"sort.Slice":       sortSliceIntrinsic,
+		"sort.SliceStable": sortSliceIntrinsic,
+
 		// ---- errors / fmt
 		"errors.Is": func(in *Interp, c *frame, fn *ssa.Function, a []Value) Value {
 			return in.tt.Bool(in.errorsIs(c, a[0].(Iface), a[1].(Iface), 0))
